@@ -26,7 +26,8 @@ pub fn cube(run: &Run) -> Acc {
         crate::watch::start(Duration::from_secs(20), move |case| {
             let path = format!("{}/replays/C08-timeout.json", rdir);
             let _ = std::fs::create_dir_all(format!("{}/replays", rdir));
-            let _ = std::fs::write(&path, json!({"kind": "timeout", "property": "C08", "case": case}).to_string());
+            let c: Value = serde_json::from_str(case).unwrap_or(json!({"text": case}));
+            let _ = std::fs::write(&path, json!({"kind": "timeout", "property": "C08", "case": c}).to_string());
             println!("VIOLATION property=C08 replay={}", path);
             println!("  no result within the 20 s horizon: {}", case);
         });
@@ -44,13 +45,13 @@ pub fn cube(run: &Run) -> Acc {
     let in53 = |x: &Option<i128>| x.map_or(true, |v| v.abs() <= I53);
     let examine = |acc: &mut Acc, q: &str| {
         acc.evals += 1;
-        match crate::watch::guarded(|| format!("parse {}", q), || imp::parse(q)) {
+        match crate::watch::guarded(|| json!({"query": q, "parse_only": true}).to_string(), || imp::parse(q)) {
             Err(p) => acc.viol(format!("parse_json_path({:?}) panicked: {}", q, p), json!({"kind": "parse", "class": "integer cube", "string": q})),
             Ok(Err(_)) => {}
             Ok(Ok(jq)) => {
                 acc.nontrivial += 1;
                 for (d, am) in docs.iter().zip(ams.iter()) {
-                    let o = crate::watch::guarded(|| format!("{} on {}", q, d), || imp::run_parsed(&jq, d, am));
+                    let o = crate::watch::guarded(|| json!({"query": q, "doc": d}).to_string(), || imp::run_parsed(&jq, d, am));
                     if !matches!(o, ImplOut::Ok(_)) {
                         acc.viol(format!("{} on {}: {}", q, d, o.short()), json!({"kind": "parse-eval", "class": "integer cube", "string": q, "doc": d}));
                         return;
@@ -71,7 +72,7 @@ pub fn cube(run: &Run) -> Acc {
                 let jq = JpQuery::new(vec![Segment::Selector(Selector::Slice(g(a), g(b), g(c)))]);
                 for (d, am) in docs.iter().zip(ams.iter()) {
                     acc.evals += 1;
-                    let o = crate::watch::guarded(|| format!("built {} on {}", q, d), || imp::run_parsed(&jq, d, am));
+                    let o = crate::watch::guarded(|| json!({"query": q, "doc": d, "built": true}).to_string(), || imp::run_parsed(&jq, d, am));
                     if !matches!(o, ImplOut::Ok(_)) {
                         acc.viol(format!("programmatically built {} on {}: {}", q, d, o.short()), json!({"kind": "built-slice", "class": "integer cube (built)", "slice": [g(a), g(b), g(c)], "doc": d}));
                     }
